@@ -363,18 +363,18 @@ func (fs *FS) rename(oldFile *file, oldname, newname string) error {
 		if err != nil {
 			return err
 		}
-		err = fs.setFileTxn(txn, newname, oldFile.fileData, contents)
-		if err == nil {
-			err = fs.setFileTxn(txn, oldname, nil, nil)
-		}
+		// a file that was at the new name is replaced: inside the transaction, that name stops referring to it
+		txn.SetHandler(newname, oldFile.fileData, contents, OpHandlerFunc(func(_ Transaction, result OpResult) error {
+			if result.Err == nil {
+				fs.noteUnlink(newname)
+			}
+			return nil
+		}))
+		err = fs.setFileTxn(txn, oldname, nil, nil)
 		if err != nil {
 			_ = txn.Abort()
 		} else {
 			err = commitTxn(txn)
-		}
-		if err == nil {
-			fs.noteUnlink(oldname)
-			fs.noteUnlink(newname) // a file that was at the new name has been replaced
 		}
 		return err
 	}
